@@ -133,7 +133,19 @@ func (s *statsT) flush() {
 
 func TestMain(m *testing.M) {
 	// gofasta chatters on stderr; silence it (test output goes to stdout).
-	if os.Getenv("VERIF_KEEP_STDERR") == "" {
+	isWorker, isFuzz := false, false
+	for _, a := range os.Args {
+		if strings.HasPrefix(a, "-test.fuzzworker") {
+			isWorker = true
+		}
+		if strings.HasPrefix(a, "-test.fuzz=") || a == "-test.fuzz" {
+			isFuzz = true
+		}
+	}
+	if isWorker {
+		os.Unsetenv("VERIF_OUT") // workers must not clobber the coordinator's statistics
+	}
+	if os.Getenv("VERIF_KEEP_STDERR") == "" && (isWorker || !isFuzz) {
 		if dn, err := os.OpenFile(os.DevNull, os.O_WRONLY, 0); err == nil {
 			os.Stderr = dn
 		}
@@ -450,4 +462,12 @@ func splitLines(s string) []string {
 		return nil
 	}
 	return strings.Split(s, "\n")
+}
+
+func mustJSON(v any) []byte {
+	b, err := json.Marshal(v)
+	if err != nil {
+		panic(err)
+	}
+	return b
 }
